@@ -71,7 +71,13 @@ def detect(d, checks, tier="quick"):
     try:
         rc, out = sh(["git", "apply", os.path.join(d, "patch.diff")], cwd=wt)
         if rc != 0:
+            # the patch was written against an older HEAD (before later fix:/hook commits): three-way merge it
+            rc, out = sh(["git", "apply", "--3way", os.path.join(d, "patch.diff")], cwd=wt)
+        if rc != 0:
             sys.exit("patch does not apply: " + out)
+        rc, out = sh(["go", "build", "./..."], cwd=wt)
+        if rc != 0:
+            sys.exit("patched tree does not build: " + out[-500:])
         for c in checks:
             env = dict(os.environ, VERIF_REPO=wt, VERIF_NO_EVIDENCE="1")
             rc, out = sh(["/verif/bin/check", c, "--tier", tier], cwd="/verif", env=env, timeout=7200)
